@@ -86,7 +86,8 @@ def op_fingerprint(op, depth=0):
     return h.hexdigest()
 
 
-OPKINDS = ["T", "Tdiff", "E", "Ediff", "S", "Snd", "Sfloat", "SPOILER", "PD", "Wait", "Multi", "D", "System", "P", "Combined", "C"]
+OPKINDS = ["T", "Tdiff", "E", "Ediff", "S", "Snd", "Sfloat", "SPOILER", "PD", "Wait", "Multi", "D", "System", "P", "Combined", "C",
+           "ADC", "ProbeOp", "JacOp"]  # probes called as operators obey the same copy / in-place rule
 
 
 def make_op(r, kind, epg, spec=None):
@@ -156,6 +157,12 @@ def make_op(r, kind, epg, spec=None):
         return epg.T(spec[1], 20.0) @ epg.T(spec[2], -30.0), spec
     if k == "C":
         return epg.C(spec[1], kgrid=0.5), spec
+    if k == "ADC":
+        return epg.ADC, spec
+    if k == "ProbeOp":
+        return epg.Probe("F0"), spec
+    if k == "JacOp":
+        return epg.Jacobian(["alpha", "T2"]), spec
     raise ValueError(k)
 
 
@@ -223,7 +230,7 @@ def run_history(r, epg, hist):
                 obs.append(("skipped", repr(exc)[:80]))
                 continue
             lines.append(f"h apply {h} {1 if inplace else 0}")
-            if op_fingerprint(op) != opfp and kind not in ("SPOILER",):
+            if op_fingerprint(op) != opfp and kind not in ("SPOILER", "ADC"):
                 probs.append((step, f"operator object {kind} modified by its own application"))
             if fingerprint(out) != fingerprint(ref):
                 probs.append((step, f"reused operator instance {kind} differs from a fresh instance with the same arguments (in place: {inplace})"))
